@@ -637,4 +637,8 @@ def pairs_of(fn):
         for l, src2 in len_of.items():
             if src and src == src2:
                 pairs[a] = l
+    # no local holds the length: pair the view with the length field itself (conditions read bstr_len(X) directly)
+    for a, src in ptr_of.items():
+        if a not in pairs and src:
+            pairs[a] = '*%s.len' % src
     return pairs
